@@ -41,6 +41,7 @@ BIND_STRUCTS = [
     ("struct", "A", (("x", 0, U(8), None, None),)),
     ("struct", "B", (("x", 0, U(32), None, None), ("y", 1, U(32), None, None))),
     ("struct", "W", (("x", 0, U(64), None, None), ("y", 1, U(1), None, None))),
+    ("enum", "En", (("p", 0), ("q", 1))),
 ]
 
 
@@ -48,7 +49,7 @@ def scope_bindings(tier):
     opts = []
     for name in "AB":
         for proto in ("can", "default"):
-            for typ in ("A", "B", "W", "Z"):
+            for typ in ("A", "B", "W", "Z", "En"):
                 for id_ in (None, 0, 1):
                     fields = (("id", id_),) if id_ is not None else ()
                     opts.append(("impl", proto, typ, name, fields, ()))
